@@ -9,12 +9,6 @@ DRIVER = "drv_adv"
 HARNESS_DESC = "harness/adv.cpp (real details::advertiser<> + channel maps + start/stop + white_list<4> in a mock link layer)"
 HARNESS = {
     "default": dict(src="harness/adv.cpp", repo_srcs=["bluetoe/utility/address.cpp", "bluetoe/link_layer/delta_time.cpp"]),
-    "ll": dict(src="harness/adv/ll.cpp",
-               repo_srcs=["bluetoe/utility/address.cpp", "bluetoe/link_layer/delta_time.cpp",
-                          "bluetoe/link_layer/channel_map.cpp", "bluetoe/link_layer/connection_details.cpp",
-                          "tests/test_tools/test_radio.cpp", "tests/test_tools/hexdump.cpp",
-                          "tests/test_tools/buffer_io.cpp", "tests/test_tools/address_io.cpp"],
-               includes=["tests/test_tools", "tests/link_layer"]),
 }
 
 # configuration -> (variable map, variable interval, fixed interval ms, auto start, types)
